@@ -6,7 +6,7 @@
 //
 // Rules (purely syntactic, applied to every occurrence in non-test files):
 //
-//	net   net.Dial / net.DialTimeout / net.ResolveIPAddr / http.Post -> verifhook.<same>
+//	net   net.Dial / net.DialTimeout / net.ResolveIPAddr / net.LookupIP / net.LookupHost / http.Post -> verifhook.<same>
 //	lock  X.Lock() / X.Unlock() / X.RLock() / X.RUnlock()            -> verifhook.Lock(site, &(X)) ...
 //	go    go f(a, b)                                                 -> { vf, va, vb := f, a, b; verifhook.Go(site, func(){ vf(va, vb) }) }
 //	rand  math/rand top-level calls                                  -> func() T { verifhook.Yield(site); return rand.F(args) }()
@@ -166,7 +166,7 @@ func isPkgSel(e ast.Expr, pkg string, names ...string) (string, bool) {
 
 func (rw *rewriter) call(c *ast.CallExpr) {
 	if rw.rules["net"] {
-		if n, ok := isPkgSel(c.Fun, rw.netName, "Dial", "DialTimeout", "ResolveIPAddr"); ok {
+		if n, ok := isPkgSel(c.Fun, rw.netName, "Dial", "DialTimeout", "ResolveIPAddr", "LookupIP", "LookupHost"); ok {
 			rw.edits = append(rw.edits, &edit{rw.off(c.Fun.Pos()), rw.off(c.Fun.End()), func() string { return hookName + "." + n }})
 			rw.counts["net"]++
 			rw.removed[rw.netName]++
